@@ -289,6 +289,8 @@ impl Hash for Num {
             Self::Float(f) => {
                 state.write_u8(0);
                 if f.is_finite() {
+                    // hash -0.0 like 0.0, because they are also compared for equality that way
+                    let f = if *f == 0. { 0. } else { *f };
                     f.to_ne_bytes().hash(state);
                 }
             }
